@@ -266,6 +266,8 @@ def run_model(case, last_ops=None, probe_mode="touched", max_ops=2000, trace_lim
     except Exception as e:                  # anything else is wrapped as the library's runtime error
         obs['outcome'] = ('raise', 'FlipJumpRuntimeException', False, type(e).__name__, e is dev.fired)
     except BaseException as e:              # non-Exception BaseExceptions propagate unchanged
+        if type(e).__name__ in ('WatchdogTimeout', 'ShortStop', '_ShortStop', 'HarnessError'):
+            raise                               # the machinery's own wall limits are never an outcome of the MODEL
         obs['outcome'] = classify_exception(e, dev)
     raised = obs['outcome'][0] == 'raise'
     obs['ops'] = None if raised else m.count
